@@ -17,7 +17,7 @@ RULE = ("Layer A: for every operator, every (vmin, vmax) in (D u {None})^2 with 
         "(filter-column kind x statistics mode); kinds int64, str, float64, Int64 x modes all / none / rg0 "
         "(statistics on the first row group only); foreign statistics layouts newstyle (only min_value / max_value "
         "set, as other writers do) and halfopen (even row groups keep only max, odd ones only min) for int64; kinds "
-        "dt_tz (zone-aware column and constants), dt_int96 (times='int96'), cat_ord (ordered categorical whose "
+        "str_fixed (text stored with fixed_text, width above the length of the values), dt_tz (zone-aware column and constants), dt_int96 (times='int96'), cat_ord (ordered categorical whose "
         "category order is the reverse of the label order) and cat (unordered, categories in label order) with mode all; thorough: dt and cat under all "
         "three basic modes, both foreign layouts for every basic kind, the converted kinds also under rg0, int64 with"
         " statistics on some columns only (xonly: x; yonly: y). The int64 frames of the modes all / xonly / yonly are"
@@ -60,6 +60,7 @@ def points(tier):
     # kinds whose bounds go through a conversion (zone, int96, category labels)
     for kind in ("dt_tz", "dt_int96", "cat_ord"):
         cells += [(kind, stats) for stats in (("all", "rg0") if thorough else ("all",))]
+    cells.append(("str_fixed", "all"))
     if not thorough:
         # categories in label order (what pd.Categorical(values) gives): the writer may take another route to the
         # bounds than for cat_ord
@@ -391,13 +392,17 @@ def run_B(p):
     from mc.scratch import scratch
     from mc import oracles as O
     kind, stats_mode, nrg = p["kind"], p["stats"], p["nrg"]
+    label = kind
+    if kind == "str_fixed":
+        # the text column stored with a fixed width (non-default fixed_text=): bounds shorter than the width
+        kind = "str"
     sigs = {}
     detail = [""]
     evals = nontriv = datasets = 0
     ctx = {}
 
     def add(symptom, msg, **extra):
-        s = {"layer": "B", "kind": kind, "stats": stats_mode, "symptom": symptom}
+        s = {"layer": "B", "kind": label, "stats": stats_mode, "symptom": symptom}
         s.update(ctx)
         s.update(extra)
         k = repr(sorted(s.items(), key=str))
@@ -418,6 +423,8 @@ def run_B(p):
         path = os.path.join(d, "t.parquet")
         st = {"none": False, "xonly": ["x"], "yonly": ["y"]}.get(stats_mode, True)
         kw = {"times": "int96"} if kind == "dt_int96" else {}
+        if label == "str_fixed":
+            kw = {"fixed_text": {"x": 3}}
         fastparquet.write(path, df, row_group_offsets=offs, stats=st, write_index=False, **kw)
         if stats_mode == "rg0":
             _strip_stats(path, keep_rg=0)
